@@ -45,6 +45,7 @@ struct shim_prog {
 static struct shim_map shim_maps[SHIM_MAXMAPS];
 static int shim_nmaps;
 static __u64 shim_now_ns;
+static unsigned shim_touch; /* successful lookups outside per-CPU arrays + updates + deletes: 0 => the run cannot have changed map state */
 static unsigned shim_events;           /* perf/ringbuf records emitted in the current run */
 static unsigned char shim_last_event[256];
 static unsigned shim_last_event_len;
@@ -108,14 +109,17 @@ void *bpf_map_lookup_elem(void *map, const void *key) {
 		if (idx >= m->maxent) return NULL;
 		struct shim_entry *e = shim_lookup_entry(m, key, 1);
 		if (!e) e = shim_new_entry(m, key); /* array slots always exist, zero-filled */
+		if (m->type != BPF_MAP_TYPE_PERCPU_ARRAY) shim_touch++;
 		return e->val;
 	}
 	if (m->type == BPF_MAP_TYPE_PERF_EVENT_ARRAY || m->type == BPF_MAP_TYPE_RINGBUF) return NULL;
 	struct shim_entry *e = shim_lookup_entry(m, key, 0);
+	if (e) shim_touch++;
 	return e ? e->val : NULL;
 }
 long bpf_map_update_elem(void *map, const void *key, const void *value, __u64 flags) {
 	struct shim_map *m = shim_find(map);
+	shim_touch++;
 	if (shim_is_array(m)) {
 		__u32 idx; memcpy(&idx, key, 4);
 		if (idx >= m->maxent) return -E2BIG;
@@ -141,6 +145,7 @@ long bpf_map_update_elem(void *map, const void *key, const void *value, __u64 fl
 }
 long bpf_map_delete_elem(void *map, const void *key) {
 	struct shim_map *m = shim_find(map);
+	shim_touch++;
 	if (shim_is_array(m)) return -EINVAL;
 	struct shim_entry *e = shim_lookup_entry(m, key, 1);
 	if (!e) return -ENOENT;
@@ -301,6 +306,10 @@ static struct run_result run_prog(int pi, const unsigned char *frame, unsigned l
 	return r;
 }
 
+#ifdef WITH_ENUM
+#include "enum.inc"
+#endif
+
 /* ------------------------------------------------------------ protocol */
 static void rd(void *p, size_t n) {
 	if (n && fread(p, 1, n, stdin) != n) exit(0);
@@ -380,15 +389,20 @@ static void serve(void) {
 			wr32(r.len); wr(r.data, r.len);
 			break;
 		}
+#ifdef WITH_ENUM
+		case 'S': { __u32 st = rd32(); if (st < NSTATES) { set_state(st); wr32(NSTATES); } else wr32(0); break; }
+		case 'F': { /* n-th structured frame shape (full length); length 0 = no such shape */
+			__u32 idx = rd32(); unsigned len = 0;
+			if (!nth_shape(idx, frame, &len)) len = 0;
+			wr32(len); wr(frame, len);
+			break;
+		}
+#endif
 		default: fprintf(stderr, "shim: bad command %d\n", c); exit(4);
 		}
 		fflush(stdout);
 	}
 }
-
-#ifdef WITH_ENUM
-#include "enum.inc"
-#endif
 
 int main(int argc, char **argv) {
 	struct sigaction sa; memset(&sa, 0, sizeof(sa));
